@@ -230,7 +230,7 @@ fn rotate(
         _ => false, // Only case that can actually happen is (None, None)
     };
 
-    for i in (base..base + count - 1).rev() {
+    for i in (base..base + (count - 1)).rev() {
         let src = expand_env_vars(pattern.replace("{}", &i.to_string()));
         let dst = expand_env_vars(pattern.replace("{}", &(i + 1).to_string()));
 
